@@ -4,7 +4,7 @@ add("C05", "checks/c05_params.c", ["default-asan", "default-plain", "noinfo-plai
     "suffixes, known/unknown mnemonics, strings, blocks, expressions) with white space in every legal place; plus malformed data fragments "
     "after a well-formed prefix (before a terminator and at end of input + flush); plus input calls carrying 1..3 messages, partial tails and "
     "overruns for the return-value clause; distinct_nontrivial = distinct (signature, unit text) pairs",
-    rule_more="two unit tables alternating between contexts; numeric items padded to 15..640 characters; choice names ending in digits; several units per message; pending input discarded by the application (device clear) before the unit; decoy context",
+    rule_more="two unit tables alternating between contexts; numeric items padded to 15..640 characters; choice names ending in digits; several units per message; pending input discarded by the application (device clear) before the unit; decoy context; 0..130 blanks around the exponent mark of decimal items; units ended by a flush call / behind an empty line; the six numeric conversions may not claim success on string, block or expression tokens",
     technique="reference-model monitor (parameter-protocol model from the statement) over handler step records, error-callback events and the return value of SCPI_Input",
     level_text="exploration by execution over generated (signature, parameter list) pairs; every error-code clause of the statement is counted and required to be exercised",
     level_note="trusted: the generator's knowledge of the item structure (units are built from items, never re-parsed), the outcome table reader x item class written from the statement; integer readers on literals with fraction/exponent and bool readers on non-decimal numbers are not asserted beyond 'failure queues an error'",
